@@ -556,6 +556,54 @@ type cacheRTCase struct {
 	Pre   []sOp `json:"pre"`             // writes before the runtime starts
 	Post  []sOp `json:"post"`            // writes after it started
 	Burst int   `json:"burst,omitempty"` // writes issued back to back between two quiescence points (0/1 = one)
+	// the runtime sees the state through a re-batching layer (a remote or proxying CoreState): aggregated watch batches
+	// that follow each other within a millisecond are merged, so a batch may carry events on both sides of Bootstrapped
+	Coalesce bool `json:"coalesce,omitempty"`
+}
+
+type coalescingState struct{ state.State }
+
+func (c *coalescingState) WatchKindAggregated(ctx context.Context, kind resource.Kind, ch chan<- []state.Event, opts ...state.WatchKindOption) error {
+	in := make(chan []state.Event)
+
+	if err := c.State.WatchKindAggregated(ctx, kind, in, opts...); err != nil {
+		return err
+	}
+
+	go func() {
+		for {
+			var held []state.Event
+
+			select {
+			case <-ctx.Done():
+				return
+			case b := <-in:
+				held = append(held, b...)
+			}
+
+			timer := time.NewTimer(time.Millisecond)
+
+		more:
+			for {
+				select {
+				case <-ctx.Done():
+					return
+				case b := <-in:
+					held = append(held, b...)
+				case <-timer.C:
+					break more
+				}
+			}
+
+			select {
+			case <-ctx.Done():
+				return
+			case ch <- held:
+			}
+		}
+	}()
+
+	return nil
 }
 
 func runCacheRTCase(t *testing.T, c cacheRTCase) (problems []string) {
@@ -573,7 +621,12 @@ func runCacheRTCase(t *testing.T, c cacheRTCase) (problems []string) {
 			execOp(ctx, st, o, t0, lastVer, &mu)
 		}
 
-		rt, err := cruntime.NewRuntime(st, zap.NewNop(), options.WithCachedResource("n1", "T"))
+		var rtState state.State = st
+		if c.Coalesce {
+			rtState = &coalescingState{State: st}
+		}
+
+		rt, err := cruntime.NewRuntime(rtState, zap.NewNop(), options.WithCachedResource("n1", "T"))
 		if err != nil {
 			t.Fatal(err)
 		}
@@ -616,7 +669,11 @@ func runCacheRTCase(t *testing.T, c cacheRTCase) (problems []string) {
 			}
 		}
 
-		compare("after start")
+		// behind the re-batching layer the first writes are issued while the bootstrap batch is still held back, and
+		// quiescence includes the millisecond the layer waits for more
+		if !c.Coalesce {
+			compare("after start")
+		}
 
 		burst := max(c.Burst, 1)
 
@@ -624,6 +681,10 @@ func runCacheRTCase(t *testing.T, c cacheRTCase) (problems []string) {
 			execOp(ctx, st, o, t0, lastVer, &mu)
 
 			if (i+1)%burst == 0 || i == len(c.Post)-1 {
+				if c.Coalesce {
+					time.Sleep(10 * time.Millisecond)
+				}
+
 				synctest.Wait()
 				compare(fmt.Sprintf("after write %d", i))
 			}
@@ -632,7 +693,7 @@ func runCacheRTCase(t *testing.T, c cacheRTCase) (problems []string) {
 		// with writes issued back to back the cache may legitimately lag the state when a reconcile runs (the property
 		// bounds the cache by the notification that woke the reader, not by the state); the per-reconcile comparison with
 		// the state is meaningful only when every write is followed by quiescence
-		if burst == 1 {
+		if burst == 1 && !c.Coalesce {
 			probe.mu.Lock()
 			for _, s := range probe.stale {
 				problems = append(problems, "cache-behind-notification: "+s)
@@ -658,6 +719,7 @@ func genCacheRTCase(r *rng) cacheRTCase {
 	}
 
 	c.Burst = pick(r, []int{1, 1, 2, 3, 5, 8})
+	c.Coalesce = r.chance(1, 3)
 
 	for range 3 + r.intn(12) {
 		w := genWrite(r, present)
